@@ -49,7 +49,7 @@ def _cfgs(tier, rng):
                 c["plan_type"] = str(rng.choice(["gaussian", "spline"]))
                 c["interp"] = str(rng.choice(["onsite_direct", "onsite_spline"]))
             c["model"] = "xc1"
-            if rng.random() < 0.2 and fam in ("sl-npa", "sl-np", "vj-mgga", "sdmx", "sl-nst", "sl-ns"):
+            if rng.random() < 0.2 and fam in ("sl-npa", "vj-mgga", "sdmx", "sl-nst"):  # MappedXC2 needs MGGA-level data in eval_xc_cider
                 c["model"] = "xc2"
                 c["mode"] = str(rng.choice(["SEP", "NPOL"]))
                 if c["mode"] == "SEP":
@@ -62,10 +62,10 @@ def _cfgs(tier, rng):
     # the unrestricted path with genuinely spin-polarised density matrices (cross-spin gradient terms), GGA and MGGA
     must = [
         dict(family="sl-npa", spin="uks", mode="NPOL", model="xc2", mul_base="GGA_C_PBE", add_base="GGA_C_PBE", mix="pure"),
-        dict(family="sl-np", spin="uks", mode="NPOL", model="xc2", mul_base="OS_GGA_C_PBE", add_base="SS_GGA_C_PBE", mix="xmix"),
+        dict(family="sl-npa", spin="uks", mode="NPOL", model="xc2", mul_base="OS_GGA_C_PBE", add_base="SS_GGA_C_PBE", mix="xmix"),
         dict(family="sl-npa", spin="uks", mode="POL", model="xc2", mul_base="GGA_C_PBE", add_base=None, mix="pure"),
         dict(family="sl-nst", spin="uks", mode="NPOL", model="xc2", mul_base="MGGA_C_R2SCAN", add_base="LDA_C_PW_MOD", mix="mgga"),
-        dict(family="sl-np", spin="uks", mode="SEP", model="xc2", mul_base="GGA_X_PBE", add_base=None, mix="xmix"),
+        dict(family="sl-nst", spin="uks", mode="SEP", model="xc2", mul_base="GGA_X_PBE", add_base=None, mix="xmix"),
         dict(family="vj-mgga", spin="uks", mode="NPOL", model="xc2", mul_base="GGA_C_PBE", add_base="GGA_C_PBE", mix="pure",
              plan_type="gaussian", interp="onsite_direct"),
         dict(family="sdmx", spin="rks", mode="NPOL", model="xc2", mul_base="GGA_C_PBE", add_base="GGA_C_PBE", mix="xmix"),
